@@ -348,8 +348,7 @@ func (e *rlExec) Do(in M) any {
 		})
 	case "recv":
 		e.app.ack, e.app2.ack = S(in, "app"), S(in, "app")
-		r = "ok"
-		e.tx(func(ctx sdk.Context) (string, bool) {
+		r = e.tx(func(ctx sdk.Context) (string, bool) {
 			var cls string
 			if Bool(in, "v2") {
 				res := e.mw2.OnRecvPacket(ctx, S(in, "cpChan"), S(in, "chan"), N(in, "seq"), e.payload(in), nil)
@@ -375,7 +374,7 @@ func (e *rlExec) Do(in M) any {
 				}
 			}
 			extra["ack"] = cls
-			return cls, cls != "error"
+			return "ack:" + cls, cls != "error"
 		})
 	case "ack":
 		var ackBz []byte
@@ -568,6 +567,17 @@ func (g *rlGen) chanID() string {
 	default:
 		return "channel-0"
 	}
+}
+
+// existing picks a path that currently has a limit (mostly), else a random one.
+func (g *rlGen) existing() (string, string) {
+	st, _ := g.last["state"].(M)
+	lims, _ := st["limits"].([]M)
+	if len(lims) > 0 && g.r.Chance(0.75) {
+		l := Pick(g.r, lims)
+		return l["denom"].(string), l["chan"].(string)
+	}
+	return Pick(g.r, g.denoms), g.chanID()
 }
 
 func isClient(id string) bool { return len(id) > 3 && id[:3] == "07-" }
@@ -862,20 +872,21 @@ func (g *rlGen) history(nops int) {
 			g.exec(M{"f": "add", "denom": d, "chan": ch, "maxSend": g.pct(), "maxRecv": g.pct(), "dur": U(uint64(r.Intn(4))),
 				"supply": g.supply[d].String(), "chanExists": exists})
 		case w < 89: // update
-			d := Pick(r, g.denoms)
+			d, ch := g.existing()
 			if r.Chance(0.3) {
 				g.supply[d] = g.genSupply()
 			}
-			g.exec(M{"f": "update", "denom": d, "chan": g.chanID(), "maxSend": g.pct(), "maxRecv": g.pct(), "dur": U(uint64(r.Intn(4))),
+			g.exec(M{"f": "update", "denom": d, "chan": ch, "maxSend": g.pct(), "maxRecv": g.pct(), "dur": U(uint64(r.Intn(4))),
 				"supply": g.supply[d].String()})
 		case w < 92:
-			g.exec(M{"f": "remove", "denom": Pick(r, g.denoms), "chan": g.chanID()})
+			d, ch := g.existing()
+			g.exec(M{"f": "remove", "denom": d, "chan": ch})
 		case w < 95:
-			d := Pick(r, g.denoms)
+			d, ch := g.existing()
 			if r.Chance(0.3) {
 				g.supply[d] = g.genSupply()
 			}
-			g.exec(M{"f": "resetLimit", "denom": d, "chan": g.chanID(), "supply": g.supply[d].String()})
+			g.exec(M{"f": "resetLimit", "denom": d, "chan": ch, "supply": g.supply[d].String()})
 		case w < 97:
 			g.exec(M{"f": "blacklist", "denom": Pick(r, g.denoms), "on": r.Chance(0.6)})
 		case w < 99:
